@@ -106,7 +106,7 @@ def coq_case(case):
     rk = _ranks(case)
     rs = coq_list(['{| r_type := %s; r_start := %s; r_id := %s |}' % ('GE' if m == '>=' else 'GT', z(rk[s]), nat(i))
                    for (m, s, i) in case['ranges']])
-    return '(%s, %s, %s)' % (rs, z(rk[case['r']]), coq_list([nat(i) for i in case.get('plain', [])]))
+    return '(%s, %s, (%s : list nat))' % (rs, z(rk[case['r']]), coq_list([nat(i) for i in case.get('plain', [])]))
 
 def correspond(ctx):
     rng = ctx['rng']
